@@ -48,11 +48,23 @@ def main():
     for m in re.finditer(r"cp\s+(\S+)\s+(\S+)", run_md):
         name, dest = os.path.basename(m.group(1)), m.group(2)
         if os.path.exists(os.path.join(demo, name)):
+            if dest.endswith("/") or os.path.isdir(os.path.join("/repo", dest)):
+                dest = os.path.join(dest, name)
             copies.append((os.path.join(demo, name), dest))
-    m = re.search(r"(go (?:test|run)[^\n`]*)", run_md)
-    if not m:
+    cmds = [c.strip() for c in re.findall(r"^\s+(go (?:test|run)[^\n`]*)", run_md, re.M)]
+    if not cmds:
+        cmds = [c.strip() for c in re.findall(r"(go (?:test|run)[^\n`]*)", run_md)][:1]
+    if "--demo-cmd" in sys.argv:
+        cmds = [sys.argv[sys.argv.index("--demo-cmd") + 1]]
+    if not cmds:
         print("cannot find the demo command in RUN.md"); sys.exit(2)
-    demo_cmd = m.group(1).strip()
+    demo_cmd = " && ".join(dict.fromkeys(cmds))
+    if not copies:
+        for dp, _, fs in os.walk(demo):
+            for f in fs:
+                rel = os.path.relpath(os.path.join(dp, f), demo)
+                if rel.startswith("pkg/") and f.endswith(".go"):
+                    copies.append((os.path.join(dp, f), rel))
     if not copies:
         for f in os.listdir(demo):
             if f.endswith("_test.go"):
@@ -101,6 +113,12 @@ def main():
         report["check_wall_s"] = round(time.time() - t0)
         report["check_lines"] = [l for l in outc.splitlines() if l.startswith(("VIOLATION", "KNOWN-FINDING", prop)) or "violation [" in l][:12]
         report["caught"] = (rcc == 1 and any(l.startswith("VIOLATION") for l in outc.splitlines()))
+        report["also"] = {}
+        if "--also" in sys.argv:
+            for other in sys.argv[sys.argv.index("--also") + 1].split(","):
+                rco, outo = sh("./check %s quick" % other, cwd=ROOT, env=dict(os.environ, VERIF_REPO=wt), timeout=3000)
+                report["also"][other] = {"exit": rco, "caught": rco == 1 and any(l.startswith("VIOLATION") for l in outo.splitlines()),
+                                         "lines": [l for l in outo.splitlines() if l.startswith(("VIOLATION", other)) or "violation [" in l][:8]}
         report["confirmed"] = (rc0 == 0 and rc1 != 0 and rcb == 0 and not diff)
     finally:
         sh("git -C /repo worktree remove --force %s" % wt)
@@ -117,7 +135,7 @@ def main():
             "our_confirmation": report}
     json.dump(meta, open(os.path.join(out_dir, "meta.json"), "w"), indent=1)
     print(json.dumps({k: report[k] for k in ("id", "confirmed", "caught", "demo_without_change", "demo_with_change",
-                                             "existing_tests_changed", "check_exit", "check_lines") if k in report}, indent=1))
+                                             "existing_tests_changed", "check_exit", "check_lines", "also") if k in report}, indent=1))
 
 
 if __name__ == "__main__":
